@@ -247,7 +247,8 @@ class Surface(DaeObject):
         if self.format:
             formatnode = surfacenode.find(tag('format'))
             if formatnode is None:
-                surfacenode.append(E.format(self.format))
+                # <format> follows the surface's initialisation and precedes its other children
+                surfacenode.insert(list(surfacenode).index(initnode) + 1, E.format(self.format))
             else:
                 formatnode.text = self.format
         initnode.text = self.image.id
